@@ -11,6 +11,7 @@ from .. import shapes as S
 from ..core import fmt, fmt_list, fmt_ints, fmt_opt, parse_rats, frac, err_kind, close, exact, floats
 
 ID = "C17"
+THREADS = True       # part of the cases run concurrently in threads of one interpreter (the schedule dimension)
 MODULES = ["TWV.Properties.C17", "TWV.Tie.Vector"]
 TRANSLATORS = ["t3_vector"]
 RULE = ("random cases per helper (oversample lin/pc, extend lin/const in three directions with default or explicit end "
